@@ -113,6 +113,11 @@ def countA (cutoff : Rat) (d : Dict ResKey (List P3)) (n : Counters) (e : ResKey
 def ratio (n : Counters) : Except Err Rat :=
   if n.2 = 0 then throw Err.zeroDiv else pure (Py.round ((n.1 : Rat) / (n.2 : Rat)) 6)
 
+/-- how the routines report a value the definition leaves undefined (no reference contact): `ZeroDivisionError` -/
+def orZeroDiv : Option Rat → Except Err Rat
+  | some v => .ok v
+  | none => .error Err.zeroDiv
+
 /-- `compute_fnat_fast(cutoff)`: `ref` is the table of the reference, `decoy` the raw lines of the decoy -/
 def fnatFast (ref : List Atom) (decoy : List Str) (cutoff : Rat) : Except Err Rat := do
   let pairs ← residuePairsRef ref cutoff
